@@ -11,7 +11,7 @@ import vlib
 LEVEL_TEXT = ('Lean 4 theorems, for all shapes/targets/parities: pad (2-D and cubes) is the restriction of the centred zero-extended '
               'array (origin sample floor(m/2) -> floor(S/2), every copied sample keeps its coordinate), its slices are in bounds, '
               'pad-then-crop is the identity; subarray/boundary/boundary_slice/slice_offset address the stated index sets; rebin '
-              'preserves the sum; the centroid of an array that is half-turn symmetric about a sample is that sample, the centroid of an indicator '
+              'preserves the sum; the centroid of an array that is half-turn symmetric about a sample is that sample (also for any ring of weights: antialiased values), hence the centroid of a drawn circle / rectangle / hexagon with zero shift that is clear of the border is the origin sample floor(n/2) (centroid_of_drawn_shapes), the centroid of an indicator '
               'set is its mean position; mesh coordinates translate under integer '
               'shifts and negate under the half-turn index map; circle/rectangle/hexagon values lie in [0,1], are binary without '
               'antialiasing, translate under integer shifts (also spider) and are half-turn and mirror symmetric (hexagons in both orientations) — via the closure of their six '
@@ -270,9 +270,15 @@ def impl(c):
             small, large = draw(shp), draw(big)
             a = _arr(c)
             cen = lentil.centroid(small)
+            soft = {'circle': lambda: lentil.circle(shp, c['radius'], shift=sh, antialias=True),
+                    'hexagon': lambda: lentil.hexagon(shp, c['radius'] + 1, shift=sh, antialias=True),
+                    'rectangle': lambda: lentil.rectangle(shp, 2 * c['radius'] + 1, 3.0, shift=sh, antialias=True)}[c['which']]()
+            soft = np.asarray(soft, dtype=float); cs = lentil.centroid(soft)
+            edge = float(max(np.abs(soft[0, :]).max(), np.abs(soft[-1, :]).max(), np.abs(soft[:, 0]).max(), np.abs(soft[:, -1]).max()))
             b = lentil.boundary(small)
             return {'pad_of_shape': _il(lentil.pad(small, big)), 'shape_on_big': _il(large), 'crop_of_big': _il(lentil.pad(large, shp)), 'shape_on_small': _il(small),
-                    'subarray': _il(lentil.util.subarray(a, sub)), 'crop': _il(lentil.pad(a, sub)), 'centroid': [float(cen[0]), float(cen[1])], 'bbox': [int(x) for x in b]}
+                    'subarray': _il(lentil.util.subarray(a, sub)), 'crop': _il(lentil.pad(a, sub)), 'centroid': [float(cen[0]), float(cen[1])], 'bbox': [int(x) for x in b],
+                    'centroid_aa': [float(cs[0]), float(cs[1])], 'aa_edge': edge}
         if k == 'centroid_float':
             r = lentil.centroid(_arr(c))
             return {'rc': [float(r[0]), float(r[1])]}
@@ -552,6 +558,8 @@ def oracle(c, io):
             want = [shp[0] // 2 + c['shift'][0], shp[1] // 2 + c['shift'][1]]
             if max(abs(io['centroid'][0] - want[0]), abs(io['centroid'][1] - want[1])) > 1e-9:
                 return f"centroid of a {c['which']} shifted by the integer vector {c['shift']} is {io['centroid']}, expected floor(n/2) + shift = {want}"
+            if io['aa_edge'] == 0 and max(abs(io['centroid_aa'][0] - want[0]), abs(io['centroid_aa'][1] - want[1])) > 1e-9:
+                return f"weighted centroid of an ANTIALIASED {c['which']} shifted by the integer vector {c['shift']} is {io['centroid_aa']}, expected floor(n/2) + shift = {want}"
             bb = io['bbox']
             if bb[0] + bb[1] != 2 * want[0] or bb[2] + bb[3] != 2 * want[1]: return f"bounding box {bb} of a {c['which']} is not symmetric about floor(n/2) + shift = {want}"
         return None
